@@ -164,6 +164,16 @@ func replayC13(raw []byte, st *Stats, wk *worker, tw *traceWriter, reps int) {
 					st.KnownHit(d)
 				}
 			}
+			// Serial is a statement about mutations only
+			isMutation := false
+			for _, o := range v.Doc.Ops {
+				if (o.Name == v.OpName || (v.OpName == "" && len(v.Doc.Ops) == 1)) && o.Kind == "mutation" {
+					isMutation = true
+				}
+			}
+			if !isMutation {
+				continue
+			}
 			parent, thunk, byPath := forestOf(run.Exp.Calls, outs)
 			if len(parent) == 0 {
 				continue
